@@ -93,6 +93,13 @@ def is_union(v: dict) -> bool:
     return v.get("ty") == "union"
 
 
+# ---- `$ref`-typed members: a reference to an object definition that may admit null itself
+# (`type: ["object", "null"]`, or the OpenAPI keyword `nullable: true` next to `type: object`); the
+# definition stands before / after the referring schema, in another file, … (c05_refs.py, Model/FieldRef.lean)
+def is_ref(v: dict) -> bool:
+    return v.get("ty") == "ref"
+
+
 def alt_schema(alt: str) -> dict:
     if alt == "z":
         return {"type": "null"}
@@ -126,6 +133,10 @@ def valid(v: dict) -> bool:
         if v["opts"]["an"] and not v["opts"]["fc"]:
             return False
         return v["via"] == "own" or v["inreq"]
+    if is_ref(v):
+        from . import c05_refs
+
+        return c05_refs.valid(v)
     if v["ty"] not in ty_of(v["dflt"]):
         return False
     if v["constr"] and v["ty"] == "object":
@@ -150,6 +161,10 @@ def realise(v: dict) -> dict:
         typed = [a for a in alts if a != "z"]
         jt = ATOM_JT[typed[0][1]] if typed else "null"
         return {"member": member, "jtype": jt, "default": dv, "present": PRESENT.get(jt)}
+    if is_ref(v):
+        from . import c05_refs
+
+        return c05_refs.realise(v)
     if d in ("none", "null"):
         jt, extra = BASE[v["ty"]][var % len(BASE[v["ty"]])]
         dv = None
@@ -211,6 +226,8 @@ def opts_of(v: dict) -> dict:
 def vec_key(v: dict) -> str:
     bits = "".join("1" if v["opts"][t] else "0" for t in OPT_TAG)
     ty = v["ty"] if not is_union(v) else f"{v.get('comb', 'anyOf')}[{'.'.join(v['alts'])}]"
+    if is_ref(v):
+        ty = f"ref[{v['target']}@{v['place']}]"
     return (
         f"{KIND_TAG[v['kind']]} {v['nullsrc']} {'req' if v['inreq'] else 'opt'} {v['dflt']} {ty} "
         f"{'con' if v['constr'] else 'nocon'} {bits} {v['via']} {v['name']}"
@@ -419,11 +436,12 @@ def _omitted_class(val, real: dict, has_default: bool) -> str:
 
 
 def semantics(code: str, v: dict, real: dict, sh: dict | None, cls: str = "M", names: tuple[str, str] | None = None,
-              others: list[tuple[str, str, object]] | None = None) -> dict:
+              others: list[tuple[str, str, object]] | None = None, loader=None) -> dict:
     """What the emitted member means at run time: loads, must(supply), null(accepted),
     omitted ∈ rejected|none|absent|dflt|other, shared (mutable default shared between instances).
     `names` = (JSON name, Python name) of the member; `others` = (JSON name, Python name, a valid
-    value) of the other members of the same class, which are always supplied."""
+    value) of the other members of the same class, which are always supplied. `loader` (for output
+    that is a package): returns (the imported module holding the class, a function that unloads it)."""
     kind = v["kind"]
     has_default = v["dflt"] != "none"
     jn, pn = names or (JSON_NAME[v["name"]], py_name(v))
@@ -447,8 +465,12 @@ def semantics(code: str, v: dict, real: dict, sh: dict | None, cls: str = "M", n
             if asg.startswith(("lit:", "field:kw")) and c == "dflt" and isinstance(real["default"], (list, dict)) and real["default"]:
                 out["loads"] = "error:msgspec-nonempty-mutable-default"
         return out
+    unload = e2e.unload
     try:
-        mod = e2e.load_module(code, kind)
+        if loader is not None:
+            mod, unload = loader()
+        else:
+            mod = e2e.load_module(code, kind)
     except BaseException as e:  # noqa: BLE001
         return {**out, "loads": f"error:{type(e).__name__}"}
     try:
@@ -508,7 +530,7 @@ def semantics(code: str, v: dict, real: dict, sh: dict | None, cls: str = "M", n
     except BaseException as e:  # noqa: BLE001
         out["loads"] = f"error:introspection:{type(e).__name__}:{str(e)[:80]}"
     finally:
-        e2e.unload(mod)
+        unload(mod)
     return out
 
 
@@ -580,6 +602,10 @@ def ir_of_captured(cls: str = "M", pyname: str | None = None) -> str | None:
 
 def run_vector(v: dict) -> dict:
     """One abstract vector through the real generator (runs in a worker process)."""
+    if is_ref(v):
+        from . import c05_refs
+
+        return c05_refs.run_refvec(v)
     _install_capture()
     _captured.clear()
     v = norm_vec(v)
@@ -677,6 +703,13 @@ MODEL_OPTS = ["sn", "ud", "fo", "sd", "an", "fc"]  # use_default_kwarg is spelli
 
 def driver_request(v: dict) -> str:
     bits = "".join("1" if v["opts"][t] else "0" for t in MODEL_OPTS)
+    if is_ref(v):
+        from . import c05_refs
+
+        return (
+            f"field.renderr {KIND_TAG[v['kind']]} {int(v['inreq'])} {v['dflt']} {bits} {v['via']} {v['name']} "
+            f"{int(v['opts']['sc'])} {v['target']} {int(c05_refs.is_forward(v))}"
+        )
     if is_union(v):
         return (
             f"field.renderu {KIND_TAG[v['kind']]} {int(v['inreq'])} {v['dflt']} {bits} {v['via']} {v['name']} "
@@ -730,6 +763,8 @@ def clause_N(v: dict) -> bool:
     """the member's schema admits null (through its type list, the OpenAPI keyword, or an alternative)"""
     if is_union(v):
         return any(alt_admits_null(a) for a in v["alts"])
+    if is_ref(v):
+        return v["target"] != "no"  # the referenced definition admits null
     return NULLMODE[v["nullsrc"]] != "no"
 
 
@@ -778,7 +813,10 @@ def clause_failures(v: dict, sem: dict, shape: str, ir_required: bool | None) ->
             if sem["shared"]:
                 out.append({"clause": "mutable_default_not_shared", "mechanism": "shared_object"})
     if N and not sem["null"]:
-        if is_union(v):
+        if is_ref(v):
+            # null is admitted by the DEFINITION the member refers to
+            mech = "definition_nullable_keyword_not_read" if v["target"] == "flag" else "reference_to_nullable_definition_lost"
+        elif is_union(v):
             # null is admitted through an alternative of the anyOf / oneOf
             only_flag = all(a[0] == "f" for a in v["alts"] if alt_admits_null(a))
             mech = "openapi_nullable_without_strict" if only_flag and not o["sn"] else "union_alternative_null_lost"
@@ -818,6 +856,9 @@ def evaluate(ck: Check, camps: dict, v: dict, r: dict, model: dict | None, recor
             co.hit(f"opt:{t}")
     co.hit(f"via:{v['via']}")
     co.hit(f"name:{v['name']}")
+    if is_ref(v):
+        co.hit(f"ref:definition-{v['target']}")
+        co.hit(f"ref:place-{v['place']}")
     if is_union(v):
         co.hit(f"union:{len(v['alts'])}-alternatives")
         co.hit("union:" + ("null-through-alternative" if any(alt_admits_null(a) for a in v["alts"]) else "no-null"))
